@@ -404,6 +404,9 @@ func (h *histClient) checkQuery(q qeval.Q, prop string) {
 				}
 				h.c.ViolateProp(prop, "differs-from-documented-meaning", sig, h.s.Steps, "%s (%s/%s): %s\n  got : %v\n  want: %v", h.name, h.cfg.Engine, h.cfg.KV, q, got, ws)
 			}
+		} else if first.total > uint64(size) && got.total == first.total {
+			// more hits than the page holds (only possible when element documents come back as hits, finding 10.13):
+			// which of them fill the page depends on the scores, so the hit lists are not comparable
 		} else if got.String() != first.String() {
 			sig["option"] = fmt.Sprintf("score=%s", v.score)
 			if v.score == "" {
